@@ -353,6 +353,12 @@ def d3_map_algebra(ctx):
                 if not isinstance(node.ctx, ast.Load) or node.id in rasters:
                     return node
                 v = expand_name(du, node, at)
+                if v is node:
+                    # first element of a tuple-unpacked call result: ipeak, _ = parabolic_max(...)
+                    ds_ = du.strong_reaching(node.id, at)
+                    if len(ds_) == 1 and ds_[0].unpack_index is not None and isinstance(ds_[0].value, ast.Call):
+                        v = ast.Subscript(value=copy.deepcopy(ds_[0].value), slice=ast.Constant(value=ds_[0].unpack_index), ctx=ast.Load())
+                        return self.generic_visit(v)
                 if v is node or isinstance(v, ast.Lambda) or self.depth > 12 or any(isinstance(n_, ast.Name) and n_.id == node.id for n_ in ast.walk(v)):
                     return node
                 self.depth += 1
